@@ -370,8 +370,47 @@ def eliminate(conds):
     return conds, subs
 
 
+def abstract_monomials(conds):
+    """Replace, in the top-level polynomials of the conditions, every product of two or more
+    positive atoms that multiplies a monomial by one fresh positive variable (same product -> same
+    variable).  Every model of the original conditions extends to a model of the result, so `unsat`
+    of the abstraction is `unsat` of the original; `sat` is not conclusive."""
+    table = {}
+
+    def ap(p: Poly) -> Poly:
+        out = {}
+        for m, c in p.terms.items():
+            pos = tuple((i, e) for i, e in m if Atom._all[i].pos and Atom._all[i].kind in ("var", "uf", "inv"))
+            if len(pos) >= 2:
+                v = table.get(pos)
+                if v is None:
+                    v = T._mk_atom("var", (f"mono!{len(table)}",), pos=True)
+                    table[pos] = v
+                m2 = tuple(sorted([x for x in m if x not in pos] + [(v.id, 1)]))
+            else:
+                m2 = m
+            out[m2] = out.get(m2, 0) + c
+        return Poly({k: v for k, v in out.items() if v != 0})
+
+    def ab(b: BoolT) -> BoolT:
+        k = b.kind
+        if k == "le0":
+            return T.b_le0(ap(b.args[0]))
+        if k == "eq0":
+            return T.b_eq0(ap(b.args[0]))
+        if k == "not":
+            return T.b_not(ab(b.args[0]))
+        if k == "and":
+            return T.b_and(*[ab(a) for a in b.args])
+        if k == "or":
+            return T.b_or(*[ab(a) for a in b.args])
+        return b
+
+    return [ab(c) for c in conds], len(table)
+
+
 def solve(conds, timeout_s=60, exp_axioms=True, pair_axioms=True, want_smt2=False, tactic=None,
-          extra=(), elim=True, levels=(1, 2, 3)) -> Result:
+          extra=(), elim=False, levels=(1, 2, 3), abstract=False) -> Result:
     """Decide the conjunction of BoolT `conds`.
 
     The instantiated exp/ln facts are added in levels (lazy axiom escalation): every level uses a
@@ -381,6 +420,15 @@ def solve(conds, timeout_s=60, exp_axioms=True, pair_axioms=True, want_smt2=Fals
     if any(c.kind == "const" and not c.args[0] for c in conds):
         return Result("unsat", 0.0)
     t0 = time.time()
+    if abstract:
+        ac, n = abstract_monomials(conds)
+        if n:
+            r = solve(ac, timeout_s=timeout_s / 2, exp_axioms=exp_axioms, pair_axioms=pair_axioms, tactic=tactic, extra=extra,
+                      elim=False, levels=levels, abstract=False)
+            if r.verdict == "unsat":
+                r.stats["abstracted_monomials"] = n
+                return r
+            timeout_s = max(1.0, timeout_s - (time.time() - t0))
     subs = []
     if elim:
         flat = []
